@@ -401,24 +401,36 @@ func c17One(ctx *core.Ctx, i int, tm gen.Tagged) {
 	if !c17Judge(ctx, cs, rg, reach, o, &firstDot) {
 		return
 	}
-	// label lookup
-	for _, l := range labels {
-		if _, err := o.g.GetNodeByLabel(l); err != nil {
-			ctx.Violation("label-lookup", fmt.Sprintf("%s: GetNodeByLabel(%q) fails: %v", tm.Tag, l, err), cs, "found", err.Error())
-			return
+	// label lookup: on the graph, its reversal and the double reversal ("reversing flips edges and direction and nothing else")
+	for gi, gr := range []*graph.AuthorizationModelGraph{o.g, o.rev, o.revrev} {
+		which := []string{"graph", "reversed graph", "twice reversed graph"}[gi]
+		for _, l := range labels {
+			n, err := gr.GetNodeByLabel(l)
+			if err != nil {
+				ctx.Violation("label-lookup", fmt.Sprintf("%s: GetNodeByLabel(%q) fails on the %s: %v", tm.Tag, l, which, err), cs, "found", err.Error())
+				return
+			}
+			if n.Label() != l {
+				ctx.Violation("label-lookup", fmt.Sprintf("%s: GetNodeByLabel(%q) on the %s returns node %q", tm.Tag, l, which, n.Label()), cs, l, n.Label())
+				return
+			}
 		}
-	}
-	for _, l := range []string{"", "nope", "doc#zz", "user:", "union", "intersection", "exclusion", "doc#", "#a", "user:*:*"} {
-		if _, ok := rg.Nodes[l]; ok {
-			continue
-		}
-		if _, err := o.g.GetNodeByLabel(l); err == nil || !errors.Is(err, graph.ErrQueryingGraph) {
-			ctx.Violation("label-lookup", fmt.Sprintf("%s: GetNodeByLabel(%q) = %v, expected ErrQueryingGraph", tm.Tag, l, err), cs, "ErrQueryingGraph", fmt.Sprint(err))
-			return
-		}
-		if _, err := o.g.PathExists(l, labels[0]); err == nil {
-			ctx.Violation("path-query", fmt.Sprintf("%s: PathExists(%q, ..) on an unknown label returns no error", tm.Tag, l), cs, "ErrQueryingGraph", "nil")
-			return
+		for _, l := range []string{"", "nope", "doc#zz", "user:", "union", "intersection", "exclusion", "doc#", "#a", "user:*:*"} {
+			if _, ok := rg.Nodes[l]; ok {
+				continue
+			}
+			if _, err := gr.GetNodeByLabel(l); err == nil || !errors.Is(err, graph.ErrQueryingGraph) {
+				ctx.Violation("label-lookup", fmt.Sprintf("%s: GetNodeByLabel(%q) on the %s = %v, expected ErrQueryingGraph", tm.Tag, l, which, err), cs, "ErrQueryingGraph", fmt.Sprint(err))
+				return
+			}
+			if _, err := gr.PathExists(l, labels[0]); err == nil {
+				ctx.Violation("path-query", fmt.Sprintf("%s: PathExists(%q, ..) on an unknown label returns no error on the %s", tm.Tag, l, which), cs, "ErrQueryingGraph", "nil")
+				return
+			}
+			if _, err := gr.PathExists(labels[0], l); err == nil {
+				ctx.Violation("path-query", fmt.Sprintf("%s: PathExists(.., %q) on an unknown label returns no error on the %s", tm.Tag, l, which), cs, "ErrQueryingGraph", "nil")
+				return
+			}
 		}
 	}
 	if len(allPairs) > 0 && (ctx.Thorough() || i%4 == 0) {
